@@ -1,20 +1,35 @@
 #!/bin/bash
-# ThreadSanitizer build of /repo's current working tree (hooks ON) into /verif/.build-tsan; used by C16 only.
-# usage: build_tsan.sh    env: VERIF_REPO, VERIF_BUILD_TSAN
+# ThreadSanitizer build (hooks ON) of the current working tree of the repository under test; used by C16 only.
+# The tree is first copied into a private snapshot $TS/src (content comparison, changed files get a fresh mtime), so the
+# build directory is independent of where the repository under test lives (bin/mutcheck uses scratch copies) and only
+# files whose content changed are recompiled. On success the binary with its cfg/platforms/addons directories is copied to
+# the directory given as $1, so that the caller does not depend on later rebuilds.
+# env: VERIF_REPO (default /repo), VERIF_TSAN_DIR (default /verif/.build-tsan)
 set -u
 REPO="${VERIF_REPO:-/repo}"
-BUILD="${VERIF_BUILD_TSAN:-/verif/.build-tsan}"
-mkdir -p "$BUILD"
-exec 9>"$BUILD/.lock"
+TS="${VERIF_TSAN_DIR:-/verif/.build-tsan}"
+OUT="${1:-}"
+mkdir -p "$TS/src" "$TS/b"
+exec 9>"$TS/.lock"
 flock 9
-LOG="$BUILD/build.log"
-if [ ! -f "$BUILD/build.ninja" ] || ! grep -q "CMAKE_HOME_DIRECTORY:INTERNAL=$REPO\$" "$BUILD/CMakeCache.txt" 2>/dev/null; then
-    rm -f "$BUILD/CMakeCache.txt"
-    cmake -G Ninja -S "$REPO" -B "$BUILD" -DCMAKE_BUILD_TYPE=Release -DCMAKE_CXX_COMPILER=clang++ -DCMAKE_C_COMPILER=clang \
-        "-DCMAKE_CXX_FLAGS=-O1 -g -fsanitize=thread -fno-omit-frame-pointer -DDANMAR_CPPCHECK_VERIF -Wno-error -w" \
+LOG="$TS/build.log"
+rsync -a --checksum --delete --exclude .git --exclude _build --itemize-changes "$REPO/" "$TS/src/" > "$TS/rsync.log" || { echo "ERROR tsan snapshot failed"; exit 2; }
+if [ -f "$TS/b/build.ninja" ]; then   # (nothing is built yet on the first call: every file is new)
+    grep -E '^>f' "$TS/rsync.log" | cut -c13- | (cd "$TS/src" && xargs -r -d '\n' touch -c --)
+fi
+if grep -qE '^>f.* tools/matchcompiler.py$' "$TS/rsync.log"; then rm -f "$TS"/b/lib/build/mc_*.cpp; fi
+if [ ! -f "$TS/b/build.ninja" ]; then
+    LAUNCH=""
+    if command -v ccache >/dev/null 2>&1; then LAUNCH="-DCMAKE_CXX_COMPILER_LAUNCHER=ccache"; fi
+    cmake -G Ninja -S "$TS/src" -B "$TS/b" -DCMAKE_BUILD_TYPE=Release -DCMAKE_CXX_COMPILER=clang++ -DCMAKE_C_COMPILER=clang \
+        "-DCMAKE_CXX_FLAGS=-O1 -g -fsanitize=thread -fno-omit-frame-pointer -DDANMAR_CPPCHECK_VERIF -w" \
         "-DCMAKE_C_FLAGS=-O1 -g -fsanitize=thread" -DCMAKE_CXX_FLAGS_RELEASE="" -DCMAKE_C_FLAGS_RELEASE="" \
         "-DCMAKE_EXE_LINKER_FLAGS=-fsanitize=thread" \
-        -DBUILD_TESTS=OFF -DUSE_MATCHCOMPILER=On -DBUILD_GUI=OFF -DDISABLE_DMAKE=ON >"$LOG" 2>&1 || { echo "ERROR tsan build failed (cmake), see $LOG"; tail -20 "$LOG"; exit 2; }
+        -DBUILD_TESTS=OFF -DUSE_MATCHCOMPILER=On -DBUILD_GUI=OFF -DDISABLE_DMAKE=ON $LAUNCH >"$LOG" 2>&1 || { echo "ERROR tsan build failed (cmake), see $LOG"; tail -20 "$LOG"; exit 2; }
 fi
-ninja -C "$BUILD" cppcheck >>"$LOG" 2>&1 || { echo "ERROR tsan build failed (ninja), see $LOG"; tail -40 "$LOG"; exit 2; }
+ninja -C "$TS/b" cppcheck >>"$LOG" 2>&1 || { echo "ERROR tsan build failed (ninja), see $LOG"; tail -40 "$LOG"; exit 2; }
+if [ -n "$OUT" ]; then
+    mkdir -p "$OUT"
+    cp "$TS/b/bin/cppcheck" "$OUT/cppcheck" && rsync -a "$TS/b/bin/cfg" "$TS/b/bin/platforms" "$TS/b/bin/addons" "$OUT/" || { echo "ERROR tsan copy failed"; exit 2; }
+fi
 exit 0
